@@ -36,9 +36,12 @@ MANIFEST = dict(
          "kernel-checked Lean theorems state for each: guard fires <-> parameter outside the documented domain (open (0,1), "
          "> 0, >= 0, 0 < a < b < 1, lower <= upper, a < b < c < d, [0,1] and (0,1) ranges, non-decreasing thresholds, "
          "1 <= window <= side, 0 < h < n, whole h, int >= 1, one of the documented strings, min_nonnan >= 2 resp. 1), with the lift to arrays (raises iff some element offends) and "
-         "the +-inf end-point rules.  An exhaustive probe grid (about 2200 calls) drives the REAL public functions at {inside, "
+         "the +-inf end-point rules.  An exhaustive probe grid (about 3900 calls) drives the REAL public functions at {inside, "
          "just inside, on, just outside, outside} each boundary as python float/int, numpy float64/float32/int64 and arrays "
-         "with one offending element at every position, and compares raise (ValueError subclass / TypeError) vs return with "
+         "with one offending element at every position, and - for the value guards that accept a Dataset (check_binary behind "
+         "brier_score / probability_of_detection / probability_of_false_detection, brier_score's and risk_matrix_score's [0,1] "
+         "range and {0,1} checks) - Datasets of 2 and 3 variables with the offending element in the variable at every index "
+         "(also hidden among NaNs, other variables all-NaN, mixed dimensions, float32 / int64 storage), and compares raise (ValueError subclass / TypeError) vs return with "
          "the translated guards (correspondence) and with the hand-written documented domains (oracle).",
     note="Trusted: Lean kernel; standard axioms; py2lean + tools/gen/Guards.py (the table naming which `if` is which guard, "
          "the substitution of sub-expressions like fcst.max() or len(diffs) by scalar parameters, stripping of existential "
@@ -60,6 +63,8 @@ RULE = ("the probe grid: every validated parameter of every listed public functi
         "outside, well outside} each boundary x {python float, python int, numpy float64/float32/int64} and, where the "
         "parameter may be an array, arrays with one offending element at each position; enumerated options x {every documented "
         "spelling, wrong case, empty, undocumented}; fill_cdf / add_thresholds: every method x min_nonnan in {-1, 0, 1, 2, 3}; "
+        "Dataset-accepting value guards: 2 and 3 data variables x offending variable at every index x {plain, only non-NaN "
+        "value of its variable, other variables all-NaN, mixed dimensions} x {float64, float32, int64}; "
         "exhaustive, no sampling; "
         "distinct = distinct (site, values, container); non-trivial = the call is in-domain and returns")
 
@@ -581,6 +586,133 @@ def fixtures():
         add("fss_2d_single_field.threshold_operator",
             (lambda op=op: fss_2d_single_field(fld_f, fld_o, event_threshold=0.5, window_size=(2, 2), threshold_operator=op)),
             {"value": nm, "container": "operator"}, pyexpect=nm in ("np.equal", "operator.gt", "np.add"))
+    # ================================================================== guards on Dataset input with SEVERAL data variables
+    # The value guards that accept an xr.Dataset (check_binary: brier_score obs, probability_of_detection /
+    # probability_of_false_detection fcst and obs, also called directly; the [0, 1] range guard of brier_score's Dataset
+    # branch; risk_matrix_score's fcst range and obs {0, 1} check, which go through to_array) must reject iff SOME non-NaN
+    # element of SOME variable is outside the documented set, wherever that variable sits: 2 and 3 variables whose
+    # insertion order is not the alphabetical one, the single offending element in the variable at every index (first,
+    # middle, last), at a moving position, plainly / as the only non-NaN value of its variable / with every other
+    # variable all-NaN / in a variable with fewer dimensions than the others (to_array broadcasts it), stored as float64,
+    # float32 or int64.  Expected outcome from the exact values put in (never from the library).
+    ds_names = ["zeta", "alpha", "mid"]
+    bin_pat = [0.0, 1.0, 1.0, 0.0]
+    prob_pat = [0.1, 0.5, 0.9, 0.3]
+
+    def ds_build(n_vars, k, v, layout, pos, pat, dtype="float64"):
+        """Dataset of n_vars variables (named ds_names, inserted in that order); variable k carries the value v at
+        position pos; returns (dataset, all values put in)"""
+        dvars, allv = {}, []
+        for j in range(n_vars):
+            two_d = layout == "mixed-dims" and j != k
+            col = [pat[(i + j) % 4] for i in range(4)]
+            if j == k:
+                if layout == "among-nans":
+                    col = [float("nan")] * 4
+                col[pos] = v
+            elif layout == "others-all-nan":
+                col = [float("nan")] * 4
+            arr = np.array(col, dtype=float)
+            if j == k and dtype != "float64":
+                arr = arr.astype(dtype)
+            allv += col
+            if two_d:
+                arr = np.stack([arr, arr], axis=1)
+                dvars["".join(list(ds_names[j]))] = xr.DataArray(arr, dims=["t", "x"])
+            else:
+                dvars["".join(list(ds_names[j]))] = xr.DataArray(arr, dims=["t"])
+        return xr.Dataset(dvars), allv
+
+    def ds_partner(ds_, pat):
+        """an always-valid Dataset with the same variables, dimensions and order"""
+        return xr.Dataset({n_: xr.DataArray(np.array([pat[i % 4] for i in range(ds_[n_].size)]).reshape(ds_[n_].shape),
+                                            dims=ds_[n_].dims) for n_ in ds_.data_vars})
+
+    def nonnan(vals):
+        return [x for x in vals if not (isinstance(x, float) and math.isnan(x))]
+
+    bin_values = [0.0, 1.0, float("nan"), 0.5, 2.0, -1.0, TINY, BELOW1]
+    ds_cases = []   # (n_vars, k, layout, dtype, value)
+    for n_vars in (2, 3):
+        for k in range(n_vars):
+            for layout in ("plain", "among-nans", "others-all-nan", "mixed-dims"):
+                for v in bin_values:
+                    ds_cases.append((n_vars, k, layout, "float64", v))
+            for v in [0.0, 1.0, 0.5, 2.0, -1.0]:
+                ds_cases.append((n_vars, k, "plain", "float32", v))
+            for v in [0, 1, 2, -1, 7]:
+                ds_cases.append((n_vars, k, "plain", "int64", v))
+                ds_cases.append((n_vars, k, "mixed-dims", "int64", v))
+    for idx, (n_vars, k, layout, dtype, v) in enumerate(ds_cases):
+        pos = idx % 4
+        dsb, allv = ds_build(n_vars, k, v, layout, pos, bin_pat, dtype)
+        bad = any(x not in (0, 1) for x in nonnan(allv))
+        good_b, good_p = ds_partner(dsb, bin_pat), ds_partner(dsb, prob_pat)
+        d = {"n_vars": n_vars, "var_index": k, "var": ds_names[k], "layout": layout, "dtype": dtype, "pos": pos, "value": S(v),
+             "container": "dataset[multi-var]"}
+        add("check_binary.data[Dataset]", (lambda dsb=dsb: su.check_binary(dsb, "".join(["o", "bs"]))), d, pyexpect=bad)
+        add("brier_score.obs[binary, Dataset]", (lambda dsb=dsb, good_p=good_p: sp.brier_score(good_p, dsb)), d, pyexpect=bad)
+        add("probability_of_detection.obs[binary, Dataset]",
+            (lambda dsb=dsb, good_b=good_b: sca.probability_of_detection(good_b, dsb)), d, pyexpect=bad)
+        add("probability_of_detection.fcst[binary, Dataset]",
+            (lambda dsb=dsb, good_b=good_b: sca.probability_of_detection(dsb, good_b)), d, pyexpect=bad)
+        add("probability_of_false_detection.obs[binary, Dataset]",
+            (lambda dsb=dsb, good_b=good_b: sca.probability_of_false_detection(good_b, dsb)), d, pyexpect=bad)
+        add("probability_of_false_detection.fcst[binary, Dataset]",
+            (lambda dsb=dsb, good_b=good_b: sca.probability_of_false_detection(dsb, good_b)), d, pyexpect=bad)
+    # the [0, 1] range guard of brier_score's Dataset branch: the out-of-range probability in every variable
+    idx = 0
+    for n_vars in (2, 3):
+        for k in range(n_vars):
+            for layout in ("plain", "among-nans", "others-all-nan", "mixed-dims"):
+                for p in probs:
+                    idx += 1
+                    dsp, allv = ds_build(n_vars, k, p, layout, idx % 4, prob_pat)
+                    vals = nonnan(allv)
+                    good_b = ds_partner(dsp, bin_pat)
+                    add("brier_score.fcst[Dataset, multi-var]", (lambda dsp=dsp, good_b=good_b: sp.brier_score(dsp, good_b)),
+                        {"n_vars": n_vars, "var_index": k, "var": ds_names[k], "layout": layout, "pos": idx % 4, "value": S(p),
+                         "container": "dataset[multi-var]"},
+                        guards=[("brier_fcst_range_dataset", [S(max(vals)), S(min(vals))])])
+    # risk_matrix_score with Dataset fcst / obs (to_array): fcst range and obs {0, 1} in every variable
+    rf_v = [[0.2, 0.6, 0.1], [0.9, 0.4, 0.0]]
+    ro_v = [[1.0, 0.0, 0.0], [1.0, 1.0, 0.0]]
+
+    def risk_ds(n_vars, k, v, pos, base, among_nans):
+        dvars, allv = {}, []
+        for j in range(n_vars):
+            arr = np.array(base, dtype=float)
+            if j == k:
+                if among_nans:
+                    arr[:] = np.nan
+                arr.flat[pos] = v
+            allv += [float(x) for x in arr.flat]
+            dvars["".join(list(ds_names[j]))] = xr.DataArray(arr, dims=["t", "sev"], coords={"sev": sev})
+        return xr.Dataset(dvars), allv
+
+    idx = 0
+    for n_vars in (2, 3):
+        for k in range(n_vars):
+            for among in (False, True):
+                rf_ok, _ = risk_ds(n_vars, -1, 0.0, 0, rf_v, False)
+                ro_ok, _ = risk_ds(n_vars, -1, 0.0, 0, ro_v, False)
+                for p in probs:
+                    idx += 1
+                    dsf, allv = risk_ds(n_vars, k, p, idx % 6, rf_v, among)
+                    vals = nonnan(allv)
+                    add("risk_matrix_score.fcst[Dataset, multi-var]",
+                        (lambda dsf=dsf, ro_ok=ro_ok: risk_matrix_score(dsf, ro_ok, dw([0.1, 0.5]), "sev", "pt")),
+                        {"n_vars": n_vars, "var_index": k, "var": ds_names[k], "layout": "among-nans" if among else "plain",
+                         "pos": idx % 6, "value": S(p), "container": "dataset[multi-var]"},
+                        guards=[("risk_fcst_range", [S(max(vals)), S(min(vals))])])
+                for v in bin_values:
+                    idx += 1
+                    dso, allv = risk_ds(n_vars, k, v, idx % 6, ro_v, among)
+                    add("risk_matrix_score.obs[binary, Dataset]",
+                        (lambda dso=dso, rf_ok=rf_ok: risk_matrix_score(rf_ok, dso, dw([0.1, 0.5]), "sev", "pt")),
+                        {"n_vars": n_vars, "var_index": k, "var": ds_names[k], "layout": "among-nans" if among else "plain",
+                         "pos": idx % 6, "value": S(v), "container": "dataset[multi-var]"},
+                        pyexpect=any(x not in (0, 1) for x in nonnan(allv)))
     return sites
 
 
